@@ -1481,8 +1481,8 @@ func (p *Prog) exclusiveHelpers(root *ssa.Function, more ...*ssa.Function) map[*
 	for _, f := range p.ModFns {
 		eachInstr(f, func(b *ssa.BasicBlock, i int, in ssa.Instruction) {
 			var callee *ssa.Function
-			if c, ok := in.(*ssa.Call); ok {
-				callee = staticCallee(&c.Call)
+			if cc := callCommon(in); cc != nil {
+				callee = staticCallee(cc) // a deferred or go'd static call is a call too
 			}
 			rands = in.Operands(rands[:0])
 			for _, r := range rands {
